@@ -37,6 +37,33 @@ VERIFICATION_FAILURES = (
     "unable to prove pre-condition of closure",
     "closure",
 )
+VERUS_TIMEOUT = int(os.environ.get("SOSV_VERUS_TIMEOUT", "1500"))
+
+
+class _Proc(object):
+    pass
+
+
+def run_with_timeout(cmd, cwd, env=None, timeout=1500):
+    """subprocess.run with a wall-clock limit that kills the whole process group (verus spawns z3)."""
+    import signal
+    pr = subprocess.Popen(cmd, cwd=cwd, stdout=subprocess.PIPE, stderr=subprocess.PIPE, text=True, env=env,
+                          start_new_session=True)
+    r = _Proc()
+    r.timed_out = False
+    try:
+        r.stdout, r.stderr = pr.communicate(timeout=timeout)
+    except subprocess.TimeoutExpired:
+        r.timed_out = True
+        try:
+            os.killpg(pr.pid, signal.SIGKILL)
+        except OSError:
+            pass
+        r.stdout, r.stderr = pr.communicate()
+    r.returncode = pr.returncode
+    return r
+
+
 RESOURCE = ("rlimit", "resource limit", "timed out", "timeout")
 
 TL_RE = re.compile(r"/\*@TL:([A-Za-z_]+)::([A-Za-z_]+):([A-Za-z0-9_]+)\*/")
@@ -144,8 +171,12 @@ def run_unit(unit, rlimit=40, extra_args=(), text_override=None, tag=None):
            "--multiple-errors", "30", "--rlimit", str(rlimit)] + list(extra_args)
     res.verus_cmd = "cd %s && %s" % (bdir, " ".join(cmd))
     env = dict(os.environ)
-    p = subprocess.run(cmd, cwd=bdir, capture_output=True, text=True, env=env)
+    p = run_with_timeout(cmd, bdir, env, VERUS_TIMEOUT)
     res.wall = time.time() - t0
+    if p.timed_out:
+        # a diverging solver query is a tool limit, never an alarm
+        res.status, res.reason = "undecided", "verifier wall-clock timeout after %ds (SOSV_VERUS_TIMEOUT)" % VERUS_TIMEOUT
+        return res
     try:
         out = json.loads(p.stdout)
     except Exception:
